@@ -200,7 +200,7 @@ def tlc(module, cfg, specdir, env=None, workers="auto", timeout=1200, extra=None
     meta = os.path.join(BUILD, "tlc", "%s_%d" % (tag, os.getpid()))
     shutil.rmtree(meta, ignore_errors=True)
     os.makedirs(meta, exist_ok=True)
-    jopts = ["-XX:+UseParallelGC", "-Xmx" + heap]
+    jopts = ["-XX:+UseParallelGC", "-Xss64m", "-Xmx" + heap]
     if deque:
         jopts.append("-Dtlc2.tool.queue.IStateQueue=StateDeque")
     for p in (props or []):
